@@ -1260,7 +1260,9 @@ def add_invariant_checks(cls: ClassT) -> None:
         # In those cases, we have to wrap __new__ instead of __init__.
         if init_func == object.__init__ and getattr(cls, "__new__") is not object.__new__:
             new_func = getattr(cls, "__new__")
-            setattr(cls, "__new__", _decorate_new_with_invariants(new_func))
+            new_wrapper = _decorate_new_with_invariants(new_func)
+            if new_wrapper is not new_func or "__new__" in cls.__dict__:
+                setattr(cls, "__new__", new_wrapper)
         elif init_func == object.__init__:
             # The class defines neither ``__init__`` nor ``__new__``.
             #
@@ -1277,23 +1279,41 @@ def add_invariant_checks(cls: ClassT) -> None:
             )
         else:
             wrapper = _decorate_with_invariants(func=init_func, is_init=True)
-            setattr(cls, init_func.__name__, wrapper)
+            if wrapper is not init_func or "__init__" in cls.__dict__:
+                setattr(cls, init_func.__name__, wrapper)
+
+    # A member which the class merely inherits and which already carries the invariant checks must not be
+    # copied into the class: the copy would shadow the definitions of the classes further along the method
+    # resolution order (*e.g.*, the overriding method of the other branch of a diamond hierarchy).
 
     for name, func in names_funcs:
         wrapper = _decorate_with_invariants(func=func, is_init=False)
-        setattr(cls, name, wrapper)
+        if wrapper is not func or name in cls.__dict__:
+            setattr(cls, name, wrapper)
 
     for name, prop in names_properties:
-        new_prop = property(
-            fget=_decorate_with_invariants(func=prop.fget, is_init=False)
+        fget = (
+            _decorate_with_invariants(func=prop.fget, is_init=False)
             if prop.fget
-            else None,
-            fset=_decorate_with_invariants(func=prop.fset, is_init=False)
-            if prop.fset
-            else None,
-            fdel=_decorate_with_invariants(func=prop.fdel, is_init=False)
-            if prop.fdel
-            else None,
-            doc=prop.__doc__,
+            else None
         )
-        setattr(cls, name, new_prop)
+        fset = (
+            _decorate_with_invariants(func=prop.fset, is_init=False)
+            if prop.fset
+            else None
+        )
+        fdel = (
+            _decorate_with_invariants(func=prop.fdel, is_init=False)
+            if prop.fdel
+            else None
+        )
+
+        if (
+            fget is not prop.fget
+            or fset is not prop.fset
+            or fdel is not prop.fdel
+            or name in cls.__dict__
+        ):
+            setattr(
+                cls, name, property(fget=fget, fset=fset, fdel=fdel, doc=prop.__doc__)
+            )
